@@ -24,7 +24,7 @@
 
    Atomic steps (every Go statement touching shared state is one step, the
    rest is goroutine-local and merged into the neighbouring step):
-     Garble : Load ptr | CAS(nil, p) | Load ptr (after a lost CAS) | pool.Get()
+     Garble : Load ptr | build the pool object p with its New function | CAS(nil, p) | Load ptr (after a lost CAS) | pool.Get()
               | fill the scratch + return the handle (the buffers are written by
               many statements; they are written by the one goroutine holding the
               scratch, which is what C17_exclusive establishes); a FAILING Garble
@@ -46,6 +46,7 @@ Inductive op :=
 Inductive res :=
 | RGarble (seed : nat)         (* the garbling written under this seed was returned *)
 | RGarbleErr                   (* Garble returned (nil, err) *)
+| RPanic                       (* pool.Get() returned nil (a published pool without New): Garble panics *)
 | RUnit
 | REval (gid : nat)            (* evaluated the garbling gid from first to last read *)
 | REvalTorn                    (* the tables changed during the evaluation *)
@@ -58,6 +59,7 @@ Inductive pc :=
 | Idle
 | GCas (seed p : nat)          (* built pool object p, about to CompareAndSwap(nil, p) *)
 | GLoad (seed : nat)           (* CAS lost, about to Load *)
+| GInit (seed p : nat)         (* regression variant only: CAS won with an EMPTY pool, about to set p.New *)
 | GGet (seed p : nat)          (* about to p.Get() *)
 | GFill (seed p s : nat)       (* holds scratch s, about to fill it and return *)
 | RClear (hi : nat)            (* Put done, about to clear g.scratch / g.pool *)
@@ -80,7 +82,12 @@ Record state := mkState {
   s_thr      : nat -> thread;
   s_dput     : bool             (* configuration, never changes: false = Garble as it is;
                                    true = the regression variant whose error returns inside
-                                   the two loops Put the scratch twice *)
+                                   the two loops Put the scratch twice *);
+  s_newset   : nat -> bool;     (* pool object p has its New function set *)
+  s_late     : bool             (* configuration, never changes: false = garbleScratchPool as it is
+                                   (the pool is built WITH New, then published by CompareAndSwap);
+                                   true = the regression variant that publishes an empty pool
+                                   first and assigns New afterwards *)
 }.
 
 Definition upd {A} (f : nat -> A) (i : nat) (v : A) : nat -> A :=
@@ -94,7 +101,7 @@ Fixpoint remove_nth (i : nat) (l : list nat) : list nat :=
   end.
 
 Definition set_thr (st : state) (t : nat) (th : thread) : state :=
-  mkState (s_ptr st) (s_npools st) (s_pool st) (s_contents st) (s_nscr st) (upd (s_thr st) t th) (s_dput st).
+  mkState (s_ptr st) (s_npools st) (s_pool st) (s_contents st) (s_nscr st) (upd (s_thr st) t th) (s_dput st) (s_newset st) (s_late st).
 
 Definition th_pc (th : thread) (p : pc) : thread :=
   mkThread (t_prog th) p (t_nh th) (t_h th) (t_res th).
@@ -124,8 +131,11 @@ Definition step (t choice : nat) (st : state) : option state :=
           | Some p => Some (set_thr st t (th_pc th (GGet seed p)))
           | None =>
               let p := s_npools st in
+              (* walk the gates, build the pool object p — with its New function unless
+                 this is the regression variant *)
               Some (mkState (s_ptr st) (S p) (s_pool st) (s_contents st) (s_nscr st)
-                            (upd (s_thr st) t (th_pc th (GCas seed p))) (s_dput st))
+                            (upd (s_thr st) t (th_pc th (GCas seed p))) (s_dput st)
+                            (upd (s_newset st) p (negb (s_late st))) (s_late st))
           end
       | ORelease hi :: _ =>
           let h := t_h th hi in
@@ -135,7 +145,7 @@ Definition step (t choice : nat) (st : state) : option state :=
               if hi <? t_nh th then
                 (* g.pool.Put(g.scratch) *)
                 Some (mkState (s_ptr st) (s_npools st) (upd (s_pool st) p (s_pool st p ++ [h_scr h]))
-                              (s_contents st) (s_nscr st) (upd (s_thr st) t (th_pc th (RClear hi))) (s_dput st))
+                              (s_contents st) (s_nscr st) (upd (s_thr st) t (th_pc th (RClear hi))) (s_dput st) (s_newset st) (s_late st))
               else Some (set_thr st t (th_ret th RUnit))                (* g == nil *)
           end
       | OEval hi :: _ =>
@@ -151,7 +161,8 @@ Definition step (t choice : nat) (st : state) : option state :=
   | GCas seed p =>
       match s_ptr st with
       | None => Some (mkState (Some p) (s_npools st) (s_pool st) (s_contents st) (s_nscr st)
-                              (upd (s_thr st) t (th_pc th (GGet seed p))) (s_dput st))
+                              (upd (s_thr st) t (th_pc th (if s_late st then GInit seed p else GGet seed p)))
+                              (s_dput st) (s_newset st) (s_late st))
       | Some _ => Some (set_thr st t (th_pc th (GLoad seed)))
       end
   | GLoad seed =>
@@ -159,16 +170,23 @@ Definition step (t choice : nat) (st : state) : option state :=
       | Some p => Some (set_thr st t (th_pc th (GGet seed p)))
       | None => Some (set_thr st t (th_ret th RErr))                    (* nil pool: cannot happen *)
       end
+  | GInit seed p =>
+      (* p.New = func() any { ... } *)
+      Some (mkState (s_ptr st) (s_npools st) (s_pool st) (s_contents st) (s_nscr st)
+                    (upd (s_thr st) t (th_pc th (GGet seed p))) (s_dput st) (upd (s_newset st) p true) (s_late st))
   | GGet seed p =>
       let items := s_pool st p in
       if choice <? length items then
         let s := nth choice items 0 in
         Some (mkState (s_ptr st) (s_npools st) (upd (s_pool st) p (remove_nth choice items))
-                      (s_contents st) (s_nscr st) (upd (s_thr st) t (th_pc th (GFill seed p s))) (s_dput st))
+                      (s_contents st) (s_nscr st) (upd (s_thr st) t (th_pc th (GFill seed p s))) (s_dput st) (s_newset st) (s_late st))
+      else if negb (s_newset st p) then
+        (* New is nil: Get returns nil, the type assertion panics *)
+        Some (set_thr st t (th_ret th RPanic))
       else
         let s := s_nscr st in
         Some (mkState (s_ptr st) (s_npools st) (s_pool st) (upd (s_contents st) s 0) (S s)
-                      (upd (s_thr st) t (th_pc th (GFill seed p s))) (s_dput st))
+                      (upd (s_thr st) t (th_pc th (GFill seed p s))) (s_dput st) (s_newset st) (s_late st))
   | GFill seed p s =>
       match t_prog th with
       | OGarbleFail _ site :: _ =>
@@ -180,13 +198,13 @@ Definition step (t choice : nat) (st : state) : option state :=
           let puts := if s_dput st && (2 <=? site) then [s; s] else [s] in
           Some (mkState (s_ptr st) (s_npools st) (upd (s_pool st) p (s_pool st p ++ puts))
                         (if 2 <=? site then upd (s_contents st) s seed else s_contents st) (s_nscr st)
-                        (upd (s_thr st) t (th_ret th RGarbleErr)) (s_dput st))
+                        (upd (s_thr st) t (th_ret th RGarbleErr)) (s_dput st) (s_newset st) (s_late st))
       | _ =>
           let h := mkHandle s (Some p) seed in
           let th' := mkThread (tl (t_prog th)) Idle (S (t_nh th)) (upd (t_h th) (t_nh th) h)
                               (RGarble seed :: t_res th) in
           Some (mkState (s_ptr st) (s_npools st) (s_pool st) (upd (s_contents st) s seed) (s_nscr st)
-                        (upd (s_thr st) t th') (s_dput st))
+                        (upd (s_thr st) t th') (s_dput st) (s_newset st) (s_late st))
       end
   | RClear hi =>
       let h := t_h th hi in
@@ -207,16 +225,16 @@ Definition exec (st : state) (it : sitem) : state :=
   | SThread t choice => match step t choice st with Some st' => st' | None => st end
   | SDrop p i =>
       mkState (s_ptr st) (s_npools st) (upd (s_pool st) p (remove_nth i (s_pool st p)))
-              (s_contents st) (s_nscr st) (s_thr st) (s_dput st)
+              (s_contents st) (s_nscr st) (s_thr st) (s_dput st) (s_newset st) (s_late st)
   end.
 
 Definition run_from (st : state) (sched : list sitem) : state := fold_left exec sched st.
 
 Definition no_handle : handle := mkHandle 0 None 0.
 Definition init_thread (prog : list op) : thread := mkThread prog Idle 0 (fun _ => no_handle) [].
-Definition init_cfg (dput : bool) (progs : list (list op)) : state :=
-  mkState None 0 (fun _ => []) (fun _ => 0) 0 (fun t => init_thread (nth t progs [])) dput.
-Definition init (progs : list (list op)) : state := init_cfg false progs.
+Definition init_cfg (dput late : bool) (progs : list (list op)) : state :=
+  mkState None 0 (fun _ => []) (fun _ => 0) 0 (fun t => init_thread (nth t progs [])) dput (fun _ => false) late.
+Definition init (progs : list (list op)) : state := init_cfg false false progs.
 
 (* ---- a program run alone: the results a goroutine's program produces when no
    other goroutine exists.  Handles: [nh] created so far, [hs hi] = (seed of the
